@@ -70,6 +70,7 @@ def run(ctx):
     bic_name = CORE + "functions::BuiltInFunction::call"
     bic = M.Fn(core.mir_fn(bic_name), bic_name)
     regions, _ = M.variant_regions(bic, CORE + "functions::BuiltInFunction", root_param=1)
+    BA = M.BuiltinArms(core, cg)
     n_imp = 0
     for n in local:
         f = cg.fns[n]
@@ -79,13 +80,14 @@ def run(ctx):
                 r = t["func"]["fn"].get("res", t["func"]["fn"]["def"])
                 if r.startswith(IMPURE_PREFIX):
                     n_imp += 1
-                    arm = M.region_of(regions, bi) if n == bic_name else []
+                    arm = BA.arm(n, bi)
+                    cn_ = BA.canonical(n)
                     ok, why = False, "not in the allowed list"
                     for pat, fn_, arm_, reason in ALLOWED_IMPURE:
-                        if re.match(pat, r) and n == fn_ and (arm_ is None or arm == [arm_]):
+                        if re.match(pat, r) and cn_ == fn_ and (arm_ is None or arm == [arm_]):
                             ok, why = True, reason
                             break
-                    ctx.inst("C02.R1", "%s->%s%s" % (n.replace(CORE, ""), r, "[" + ",".join(arm) + "]" if arm else ""), ok,
+                    ctx.inst("C02.R1", "%s->%s%s" % (cn_.replace(CORE, ""), r, "[" + ",".join(arm) + "]" if arm else ""), ok,
                              "%s called from %s%s: %s" % (r, n, " in arm %s" % arm if arm else "", why), "%s:%d" % (t["sp"][0], t["sp"][1]))
             for s in b["s"]:
                 if s["k"] == "assign":
@@ -99,11 +101,11 @@ def run(ctx):
                         ctx.inst("C02.R1", "%s@static:%s" % (n.replace(CORE, ""), m_.replace(CORE, "")), ok,
                                  "static %s read in %s: %s" % (m_, n, ALLOWED_STATICS.get((m_, n)) or ALLOWED_STATICS.get((m_, None)) or "not an allowed static"), "%s:%d" % (s["sp"][0], s["sp"][1]))
     # the seeded generator takes its seed from the argument
-    rnd = [b for b in bic.calls_to("fastrand::Rng::with_seed")]
-    for b in rnd:
-        roots = bic.trace(bic.term(b)["args"][0])
-        from_arg = any(r[0] == "call" and r[1].endswith("Value::as_number") for r in roots) or any(r[0] == "param" and r[1] == 2 for r in roots)
-        ctx.inst("C02.R1", "Random#seed", from_arg, "seed provenance %s" % [r[:2] for r in roots], bic.loc(b))
+    for mname, (mfn, _r) in sorted(BA.members.items()):
+        for b in mfn.calls_to("fastrand::Rng::with_seed"):
+            roots = mfn.trace(mfn.term(b)["args"][0])
+            from_arg = any(r[0] == "call" and r[1].endswith("Value::as_number") for r in roots) or any(r[0] == "param" and r[1] == 2 for r in roots)
+            ctx.inst("C02.R1", "Random#seed", from_arg, "seed provenance %s" % [r[:2] for r in roots], mfn.loc(b))
     # mutable statics of the crate: every `static` with interior mutability must be in the allowed table
     for sname, st in core.statics.items():
         if st.get("kind") != "Static":
